@@ -46,6 +46,7 @@ import collections
 import sys
 import types
 
+from vt.gen import c17_routes as R
 from vt.mon import c17_probe as P
 
 PID = "C17"
@@ -141,6 +142,7 @@ PINNED_INTERNAL = {
     "coroutine": ("cr_frame", "cr_code"),
     "asyncgen": ("ag_frame", "ag_code"),
     "class": ("mro",),
+    "eng_global_class": ("mro",),
 }
 REAL_KINDS = ["function", "method", "generator", "coroutine", "asyncgen", "class", "frame",
               "code", "traceback", "namedtuple", "module", "str", "int", "builtin"]
@@ -208,7 +210,37 @@ def make_real(kind):
         return len, None
     if kind in LITERALS:
         return LITERALS[kind][1], None
+    if kind in R.ENGINE_BASES:
+        return grab_engine_object(kind), None
     raise AssertionError(kind)
+
+
+_engine_objects = {}
+
+
+def grab_engine_object(kind):
+    """An instance of the engine object the first base of `kind` puts in front
+    of a template, grabbed by a context callable in an UNSANDBOXED render.  Used
+    to discover its private names generically and as the model instance of the
+    case (exemption of the receiver itself in the value oracle)."""
+    if kind not in _engine_objects:
+        import jinja2
+
+        env = jinja2.Environment(loader=jinja2.DictLoader(dict(R.HELPERS)))
+        wrap, bexpr = next(iter(R.ENGINE_BASES[kind].values()))[:2]
+        main, _, aux = wrap.partition("@@")
+        hole = "{{ grab(%s) }}" % bexpr
+        if aux:
+            env.loader.mapping[R.AUX_NAME] = aux.replace("BODY", hole)
+        got = []
+
+        def grab(o):
+            got.append(o)
+            return ""
+        env.from_string(main.replace("BODY", hole)).render(grab=grab, seq=[1],
+                                                           t=env.get_template("helpers"))
+        _engine_objects[kind] = got[0]
+    return _engine_objects[kind]
 
 
 _forbidden_cache = {}
@@ -221,6 +253,31 @@ def _classify_names(kind):
         obj, cleanup = make_real(kind)
         forb, pub = [], []
         pinned = PINNED_INTERNAL.get(kind, ())
+        if kind in R.ENGINE_BASES:
+            # engine receivers: only private / internal names are generated.  Every
+            # single-underscore / mangled name the instance offers (dir(), instance
+            # dict, type), the dunder names of the fixed escape-primitive list, the
+            # documented internal names, plus the helper template's private names.
+            try:
+                inst = list(object.__getattribute__(obj, "__dict__"))
+            except Exception:
+                inst = []
+            cands = sorted(set(dir(obj)) | set(dir(type(obj))) | set(inst))
+            for n in REAL_NAMES + [n for n in cands if n not in REAL_NAMES]:
+                if "B" in n:
+                    continue        # (placeholder letter of the template grammar)
+                try:
+                    getattr(obj, n)
+                except Exception:
+                    continue
+                if n.startswith("_"):
+                    if n in REAL_NAMES or not (n.startswith("__") and n.endswith("__")):
+                        forb.append(n)
+                elif n in pinned or is_internal_attribute(obj, n):
+                    forb.append(n)
+            forb += R.EXTRA_NAMES.get(kind, [])
+            _forbidden_cache[kind] = (forb, [])
+            return _forbidden_cache[kind]
         # forbidden names: from the fixed escape-primitive list; public names:
         # everything else the object offers (dir() is sorted: deterministic)
         for n in REAL_NAMES + [n for n in sorted(dir(obj)) if n not in REAL_NAMES]:
@@ -285,12 +342,16 @@ PROBE_BASES = {
     "set_alias": ("{% set b = p.child %}BODY", "b", None),
     "with_alias": ("{% with b = p.child %}BODY{% endwith %}", "b", None),
     "macro_param": ("{% macro bm(b) %}BODY{% endmacro %}{{ bm(p.child) }}", "b", None),
+    # positions: the access is written in an included template / in a macro of an
+    # imported template / in a block of a child template / in a call block
+    **R.PROBE_POSITION_BASES,
 }
 REAL_BASES = {
     "name": ("BODY", "r", None),
     "set_alias": ("{% set b = r %}BODY", "b", None),
     "loop_var": ("{% for b in [r] %}BODY{% endfor %}", "b", None),
     "macro_param": ("{% macro bm(b) %}BODY{% endmacro %}{{ bm(r) }}", "b", None),
+    **R.REAL_POSITION_BASES,
 }
 
 #: literal receivers: L = the literal text; bare, parenthesised, and wrapped in
@@ -311,6 +372,8 @@ def bases_for(obj):
         return PROBE_BASES
     if obj in LITERALS:
         return LITERAL_BASES
+    if obj in R.ENGINE_BASES:
+        return R.ENGINE_BASES[obj]
     return REAL_BASES
 
 
@@ -380,7 +443,11 @@ ACCESS = {
     "with_format": ("", "WITHFORMAT", False),
     "context_string_format": ("", "fmtstr.format(B)", False),
     "context_markup_format_map": ("", "fmtmarkup.format_map({'x': B})", False),
+    # {% from SRC import N [as alias] %}: the statement itself names an attribute of
+    # the imported template's module (SRC = loader name / Template object of the base)
+    **R.FROM_IMPORT_ACCESS,
 }
+FROM_ACCESS = set(R.FROM_IMPORT_ACCESS)
 NEED_PARENT = {"map_dotted", "selectattr_dotted", "format_dotted"}
 FORMAT_ACCESS = {k for k in ACCESS if "format" in k}
 
@@ -433,7 +500,16 @@ GENERIC_TOKENS = ["<class '", "<frame ", "<code object", "<built-in method", "<b
 
 
 def compose(case):
-    wrap, bexpr, parent = bases_for(case["obj"])[case["base"]]
+    """-> source of the main template (see compose_all for auxiliary ones)"""
+    return compose_all(case)[0]
+
+
+def compose_all(case):
+    """-> (main source, {name: source of auxiliary templates the main one
+    includes / imports / extends})"""
+    entry = bases_for(case["obj"])[case["base"]]
+    wrap, bexpr, parent = entry[:3]
+    src = entry[3] if len(entry) > 3 else None
     if case["obj"] in LITERALS:
         lit = LITERALS[case["obj"]][0]
         wrap, bexpr = wrap.replace("L", lit), bexpr.replace("L", lit)
@@ -442,6 +518,7 @@ def compose(case):
     n1, n2 = _split(name)
 
     def fill(t):
+        t = t.replace("SRC", src or "''")
         t = t.replace("PARENT", parent[0] if parent else "B")
         t = t.replace("PATHN", (parent[1] if parent else "") + "N")
         return t.replace("N1", n1).replace("N2", n2).replace("N", name).replace("B", bexpr)
@@ -450,7 +527,8 @@ def compose(case):
                 + CONSUME[case["consume"]][0].replace("E", f"f({bexpr})") + "{% endwith %}")
     else:
         body = fill(prelude) + CONSUME[case["consume"]][0].replace("E", fill(expr))
-    return wrap.replace("BODY", body)
+    main, _, aux = wrap.partition("@@")
+    return main.replace("BODY", body), ({R.AUX_NAME: aux.replace("BODY", body)} if aux else {})
 
 
 # ------------------------------------------------------------ environment
@@ -468,7 +546,7 @@ def get_env(case):
         cls = ImmutableSandboxedEnvironment if case["immutable"] else SandboxedEnvironment
         env = cls(enable_async=case["async"], autoescape=case["autoescape"],
                   undefined=getattr(jinja2, case["undefined"]), cache_size=0,
-                  optimized=optimized)
+                  optimized=optimized, loader=jinja2.DictLoader(dict(R.HELPERS)))
         env.vt_orig_isa = env.is_safe_attribute
         _envs[key] = env
     return env
@@ -479,18 +557,34 @@ def template_names(case):
     return {case["name"]}
 
 
-def structural_check(env, source, names):
-    """-> (offending node descriptions in the generated Python code, template
-    built from exactly that code)."""
-    code = env.compile(source, raw=True)
-    tree = ast.parse(code)
+def _direct_accesses(env, sources, names):
     bad = []
-    for node in ast.walk(tree):
-        if isinstance(node, ast.Attribute) and node.attr in names:
-            bad.append(f"attribute .{node.attr}")
-        elif isinstance(node, ast.Subscript) and isinstance(node.slice, ast.Constant) \
-                and node.slice.value in names:
-            bad.append(f"subscript [{node.slice.value!r}]")
+    for src in sources:
+        tree = ast.parse(env.compile(src, raw=True))
+        for node in ast.walk(tree):
+            if isinstance(node, ast.Attribute) and node.attr in names:
+                bad.append(f"attribute .{node.attr}")
+            elif isinstance(node, ast.Subscript) and isinstance(node.slice, ast.Constant) \
+                    and node.slice.value in names:
+                bad.append(f"subscript [{node.slice.value!r}]")
+    return bad
+
+
+def structural_check(env, source, names, aux=None, baseline=None):
+    """-> (offending node descriptions in the generated Python code, template
+    built from exactly that code).  Auxiliary templates (loaded by name while
+    the main one renders) are compiled and inspected the same way."""
+    bad = _direct_accesses(env, list((aux or {}).values()) + [source], names)
+    if bad and baseline:
+        # the engine's own generated code uses a few attribute names itself (the
+        # import statements read .__name__ of the imported template for their error
+        # message): only accesses that are NOT in the code generated for the same
+        # template with a neutral attribute name count
+        base = _direct_accesses(env, baseline, names)
+        for b in base:
+            if b in bad:
+                bad.remove(b)
+    tree = ast.parse(env.compile(source, raw=True))
     codeobj = compile(tree, "<template>", "exec")
     tmpl = env.template_class.from_code(env, codeobj, env.make_globals(None))
     return bad, tmpl
@@ -506,7 +600,7 @@ def run_case(ctx, case, count=True):
     from jinja2.exceptions import SecurityError, TemplateSyntaxError
     from markupsafe import Markup
 
-    source = compose(case)
+    source, aux = compose_all(case)
     env = get_env(case)
     log = P.Log()
     received = []
@@ -528,8 +622,10 @@ def run_case(ctx, case, count=True):
     name = case["name"]
     forbidden = is_forbidden(case)
     cleanup = None
+    is_engine = case["obj"] in R.ENGINE_BASES
+    is_from = case["access"] in FROM_ACCESS
     data = {"nm": name, "sink": sink, "fmtstr": "<{0.%s}>" % name,
-            "fmtmarkup": Markup("<{x.%s}>" % name)}
+            "fmtmarkup": Markup("<{x.%s}>" % name), "seq": [1]}
     forbidden_value = None
     if is_probe:
         p = P.Probe(log, "p")
@@ -540,6 +636,9 @@ def run_case(ctx, case, count=True):
         log.labels[id(r)] = "r"
         data["r"] = r
         exempt.append(r)
+        if case["obj"] == "eng_global_class":
+            # (the receivers themselves: the classes among the default globals)
+            exempt.extend(v for v in env.globals.values() if isinstance(v, type))
         try:
             forbidden_value = getattr(r, name)
         except Exception:
@@ -568,16 +667,40 @@ def run_case(ctx, case, count=True):
         return verdict
     env.is_safe_attribute = is_safe_attribute
     unhook = P.install_value_hooks(env, log, exempt)
-    full = dict(case, source=source)
+    full = dict(case, source=source, aux=aux)
     names = template_names(case)
     mech = f"{case['access']}:{case['obj']}:{name_category(name, case['obj'])}"
+    dist_key = [case[k] for k in ("obj", "base", "name", "access", "consume", "async",
+                                  "autoescape", "undefined", "immutable")] \
+        + [case.get("optimized", True)]
+    if count:
+        if is_engine:
+            ctx.count("engine_route_cases")
+            ctx.count("engine_route_cases:" + case["obj"])
+        if is_from:
+            ctx.count("from_import_cases")
+            ctx.count("from_import_cases:" + ("alias" if "_as" in case["access"] else "plain"))
+        if aux:
+            ctx.count("aux_template_cases")
+    env.loader.mapping.update(aux)
     try:
         try:
-            bad, tmpl = structural_check(env, source, names)
+            if is_engine:
+                # (a Template object of this environment for {% import t %} / {% from t %})
+                data["t"] = env.get_template("helpers")
+            n_src, n_aux = compose_all(dict(case, name="vtneutral"))
+            bad, tmpl = structural_check(env, source, names, aux,
+                                         baseline=list(n_aux.values()) + [n_src])
         except TemplateSyntaxError as e:
             if count:
                 ctx.count("syntax_rejected")
                 ctx.count("syntax_rejected:" + case["access"] + "/" + case["consume"])
+                if is_from and forbidden:
+                    # the documented outcome of importing a private name: the
+                    # statement is refused when the template is compiled
+                    ctx.ev()
+                    ctx.dist(dist_key)
+                    ctx.count("from_import_rejected")
             return False
         except Exception as e:
             # constant folding evaluates parts of the template while compiling: an
@@ -606,6 +729,8 @@ def run_case(ctx, case, count=True):
     finally:
         env.is_safe_attribute = orig
         unhook()
+        for k in aux:
+            env.loader.mapping.pop(k, None)
         if cleanup:
             cleanup()
     ev = log.events
@@ -631,6 +756,8 @@ def run_case(ctx, case, count=True):
                                                    else "unoptimized"))
             if forbidden and case["base"] in ("literal", "literal_paren"):
                 ctx.count("literal_forbidden_direct_cases")
+        elif is_engine:
+            ctx.count("engine_route_rendered")
         elif not is_probe:
             ctx.count("real_object_cases")
         if not case.get("optimized", True):
@@ -638,9 +765,7 @@ def run_case(ctx, case, count=True):
         if case["access"] in FORMAT_ACCESS:
             ctx.count("format_cases")
         ctx.count("value_oracle_checks", log.value_checks)
-        ctx.dist([case[k] for k in ("obj", "base", "name", "access", "consume", "async",
-                                    "autoescape", "undefined", "immutable")]
-                 + [case.get("optimized", True)])
+        ctx.dist(dist_key)
     where = f"{source!r} (obj={case['obj']}, async={case['async']}, autoescape={case['autoescape']}, " \
             f"undefined={case['undefined']}, optimized={case.get('optimized', True)}) -> {exc or out!r}"
     # ---- (1) tracer silence / tokens / hand-over
@@ -698,14 +823,18 @@ def run_case(ctx, case, count=True):
             # possible for the iter form (empty iteration over an undefined)
             if case["consume"] != "iter" and count:
                 ctx.count("sink_not_reached")
+    # (subscripting / using an undefined RECEIVER raises UndefinedError: nothing is
+    # handed over either)
+    refused = ("SecurityError", "UndefinedError") if case["obj"] == "eng_undefined" \
+        else ("SecurityError",)
     if valued and outcome_kind == "defined":
-        if not ((exc and exc[0] == "SecurityError") or _repeated(out, "False")):
+        if not ((exc and exc[0] in refused) or _repeated(out, "False")):
             ctx.violation(f"defined-not-false:{mech}",
                           f"forbidden attribute is not an undefined value: {where}", full)
         elif count:
             ctx.count("defined_false")
     if valued and outcome_kind == "default":
-        if not ((exc and exc[0] == "SecurityError") or _repeated(out, "DFLT")):
+        if not ((exc and exc[0] in refused) or _repeated(out, "DFLT")):
             ctx.violation(f"default-not-applied:{mech}",
                           f"forbidden attribute is not an undefined value: {where}", full)
         elif count:
@@ -808,6 +937,36 @@ def value_control(ctx, is_async, autoescape):
         ctx.count("value_controls_ok")
 
 
+def route_control(ctx, is_async, autoescape):
+    """Monitor sanity for the engine-object routes: imports (loader name and
+    Template object, with / without context), from-imports with alias, loop,
+    namespace / cycler / joiner, varargs / kwargs, caller, self / super, default
+    globals and include are alive in the sandboxed environments used here and
+    hand over PUBLIC names."""
+    case = {"async": is_async, "autoescape": autoescape, "undefined": "Undefined",
+            "immutable": False}
+    env = get_env(case)
+    ok = True
+    for src, want in R.ROUTE_CONTROLS:
+        try:
+            out = env.from_string(src).render(t=env.get_template("helpers"))
+        except Exception as e:
+            out = f"{type(e).__name__}: {e}"
+        if out != want:
+            ok = False
+            ctx.inconc(f"route self-test failed: {src!r} -> {out!r}, expected {want!r}")
+    # the from-import channel itself: an aliased PUBLIC name reaches the recording
+    # callable (so an aliased private one would, if the statement let it through)
+    got = []
+    env.from_string("{% from t import public as fc %}{{ sink(fc) }}").render(
+        t=env.get_template("helpers"), sink=lambda v: got.append(v) or "")
+    if got != ["PUBMOD"]:
+        ok = False
+        ctx.inconc(f"route self-test failed: from-import alias channel gave {got!r}")
+    if ok:
+        ctx.count("route_controls_ok")
+
+
 # ------------------------------------------------------------------ cases
 def env_variant(i):
     return {"async": i % 3 == 0, "autoescape": i % 2 == 0,
@@ -819,6 +978,10 @@ def applicable(case):
     parent = bases_for(case["obj"])[case["base"]][2]
     if case["access"] in NEED_PARENT and parent is None:
         return False
+    if case["access"] in FROM_ACCESS:
+        entry = bases_for(case["obj"])[case["base"]]
+        if len(entry) < 4 or not entry[3]:
+            return False        # needs a base that names a template to import from
     if case["obj"] == "coroutine" and case["base"] != "name" and case["async"]:
         # an async for/macro would await the coroutine object itself
         return False
@@ -845,6 +1008,8 @@ def core_cases():
             c = {"obj": "probe", "base": base, "name": name, "access": access,
                  "consume": sinks[i % len(sinks)], **env_variant(i)}
             if not applicable(c):
+                if access in FROM_ACCESS:
+                    continue        # (needs a template to import from: engine receivers below)
                 c["base"] = "child"
             out.append(c)
         for kind in REAL_KINDS:
@@ -852,7 +1017,9 @@ def core_cases():
             # every forbidden name + one rotating public name (value oracle only)
             for name in real_forbidden_names(kind) + ([pub[i % len(pub)]] if pub else []):
                 i += 1
-                c = {"obj": kind, "base": list(REAL_BASES)[i % len(REAL_BASES)], "name": name,
+                rb = list(REAL_BASES)
+                # (second term: base and consumption form must not rotate in lockstep)
+                c = {"obj": kind, "base": rb[(i + i // len(sinks)) % len(rb)], "name": name,
                      "access": access, "consume": sinks[i % len(sinks)], **env_variant(i)}
                 if applicable(c):
                     out.append(c)
@@ -867,17 +1034,46 @@ def core_cases():
                      "access": access, "consume": LIT_SINKS[i % len(LIT_SINKS)], **env_variant(i)}
                 if applicable(c):
                     out.append(c)
+        for kind in R.ENGINE_KINDS:
+            # engine-object receivers: one rotating private / internal name per
+            # (access form x kind), bases in turn; the {% from %} forms (where the
+            # statement names the attribute) with EVERY name of the module
+            bases = list(R.ENGINE_BASES[kind])
+            names = real_forbidden_names(kind)
+            if access in FROM_ACCESS:
+                bases = [b for b in bases if R.ENGINE_BASES[kind][b][3]]
+                if not bases:
+                    continue
+            else:
+                i += 1
+                names = [names[i % len(names)]]
+            for name in names:
+                i += 1
+                c = {"obj": kind, "base": bases[(i + i // len(LIT_SINKS)) % len(bases)], "name": name,
+                     "access": access, "consume": LIT_SINKS[i % len(LIT_SINKS)], **env_variant(i)}
+                if applicable(c):
+                    out.append(c)
     return out
 
 
 def random_case(rng):
     while True:
         x = rng.random()
-        if x < 0.5:
+        if x < 0.42:
             obj = "probe"
             base = rng.choice(list(PROBE_BASES))
             name = rng.choice(P.PRIVATE_NAMES)
-        elif x < 0.65:
+        elif x < 0.54:
+            obj = rng.choice(R.ENGINE_KINDS)
+            base = rng.choice(list(R.ENGINE_BASES[obj]))
+            name = rng.choice(real_forbidden_names(obj))
+            if rng.random() < 0.25 and R.ENGINE_BASES[obj][base][3]:
+                c = {"obj": obj, "base": base, "name": name,
+                     "access": rng.choice(sorted(FROM_ACCESS)),
+                     "consume": rng.choice(CHECKED_CONSUME if rng.random() < 0.5 else list(CONSUME)),
+                     **env_variant(rng.randrange(420))}
+                return c
+        elif x < 0.68:
             obj = rng.choice(LITERAL_KINDS)
             base = rng.choice(list(LITERAL_BASES))
             names = real_forbidden_names(obj)
@@ -912,6 +1108,7 @@ def run(ctx):
         for ae in (False, True):
             public_control(ctx, a, ae)
             value_control(ctx, a, ae)
+            route_control(ctx, a, ae)
     core = core_cases()
     ctx.extra["core_cases_total"] = len(core) if ctx.shard == 0 else 0
     stride = 5 if quick else 1
@@ -924,6 +1121,8 @@ def run(ctx):
         run_case(ctx, case)
         n += 1
         if n <= 1 and ctx.shard < 4:
+            ctx.sample(dict(case, source=compose(case)))
+        elif case["access"] in FROM_ACCESS and n % 7 == 0 and ctx.shard >= 12:
             ctx.sample(dict(case, source=compose(case)))
     ctx.count("core_cases", n)
     rng = ctx.rng("rand")
